@@ -141,6 +141,11 @@ func NewPositionRange(lines []string, val *yaml.Node, minColumn int) (offsets Po
 	}
 
 END:
+	if len(offsets) == 0 {
+		return PositionRanges{
+			{Line: val.Line, FirstColumn: val.Column, LastColumn: val.Column},
+		}
+	}
 	return offsets
 }
 
